@@ -18,6 +18,7 @@ mod signed;
 mod importers;
 mod wire;
 mod statement;
+mod record;
 
 pub fn err_name(e: &in_toto::Error) -> String {
     let d = format!("{:?}", e);
@@ -72,6 +73,7 @@ fn main() {
             "importers" => importers::run(sc),
             "wire" => wire::run(sc),
             "statement" => statement::run(sc),
+            "record" => record::run(sc),
             _ => json!({"outcome": "unsupported-kind"}),
         });
         out.push(r);
